@@ -215,6 +215,24 @@ func (f *Framer) parseControlFrame(version uint16, frameType ControlFrameType) (
 	return cframe, nil
 }
 
+// validHeaderName reports whether name can be forwarded as an HTTP/1.1 field name:
+// visible ASCII without separators that end a name (a leading ':' marks SPDY's own headers).
+func validHeaderName(name string) bool {
+	if len(name) == 0 {
+		return false
+	}
+	for i := 0; i < len(name); i++ {
+		c := name[i]
+		if c == ':' && i == 0 {
+			continue
+		}
+		if c <= ' ' || c >= 0x7f || c == ':' {
+			return false
+		}
+	}
+	return true
+}
+
 func parseHeaderValueBlock(r io.Reader, streamId StreamId) (http.Header, uint32, error) {
 	headerLen := uint32(0) // length of header decompressed
 
@@ -249,6 +267,9 @@ func parseHeaderValueBlock(r io.Reader, streamId StreamId) (http.Header, uint32,
 		}
 		if h[name] != nil {
 			e = &Error{DuplicateHeaders, streamId}
+		}
+		if !validHeaderName(name) {
+			e = &Error{InvalidHeaderPresent, streamId}
 		}
 		if err := binary.Read(r, binary.BigEndian, &length); err != nil {
 			return nil, 0, err
